@@ -28,8 +28,10 @@ import (
 	"strconv"
 	"strings"
 
+	"seehuhn.de/go/geom/matrix"
 	"seehuhn.de/go/pdf"
 	"seehuhn.de/go/pdf/graphics"
+	"seehuhn.de/go/pdf/graphics/color"
 	"seehuhn.de/go/pdf/graphics/content"
 	"seehuhn.de/go/pdf/graphics/content/builder"
 	"seehuhn.de/go/pdf/page"
@@ -1182,7 +1184,7 @@ func (h *harness) builderCase() {
 	n := 1 + r.IntN(14)
 	var calls []string
 	for i := 0; i < n; i++ {
-		k := r.IntN(20)
+		k := r.IntN(34)
 		if r.IntN(8) > 0 {
 			// mostly calls the current state accepts
 			hasQ, hasM := false, false
@@ -1193,7 +1195,7 @@ func (h *harness) builderCase() {
 			var opts []int
 			switch b.State.CurrentObject {
 			case content.ObjPage:
-				opts = []int{0, 1, 4, 6, 8, 10, 16, 18}
+				opts = []int{0, 1, 4, 6, 8, 10, 16, 18, 20, 21, 22, 23, 24, 25, 30, 31}
 				if hasQ {
 					opts = append(opts, 2, 3)
 				}
@@ -1201,11 +1203,11 @@ func (h *harness) builderCase() {
 					opts = append(opts, 7)
 				}
 			case content.ObjPath:
-				opts = []int{8, 9, 9, 10, 11, 12, 13, 14, 15}
+				opts = []int{8, 9, 9, 10, 11, 12, 13, 14, 15, 26, 27, 28, 29, 32}
 			case content.ObjClippingPath:
 				opts = []int{12, 13, 14}
 			case content.ObjText:
-				opts = []int{5, 5, 6, 17, 17, 18}
+				opts = []int{5, 5, 6, 17, 17, 18, 20, 25, 33, 30}
 				if hasM {
 					opts = append(opts, 7)
 				}
@@ -1264,6 +1266,34 @@ func (h *harness) builderCase() {
 				b.MarkedContentPoint(&graphics.MarkedContent{Tag: pdf.Name("P#1")})
 			case 19:
 				b.TextShowRaw(pdf.String(h.rbytes(6)))
+			case 20:
+				b.SetLineCap(graphics.LineCapStyle(r.IntN(3)))
+			case 21:
+				b.SetLineJoin(graphics.LineJoinStyle(r.IntN(3)))
+			case 22:
+				b.SetMiterLimit(1 + float64(r.IntN(90))/9)
+			case 23:
+				b.SetLineDash([]float64{float64(r.IntN(5)), 1.5}, float64(r.IntN(3)))
+			case 24:
+				b.Transform(matrix.Translate(float64(r.IntN(100))/3, -7.25))
+			case 25:
+				b.SetFillColor(color.DeviceGray(float64(r.IntN(11)) / 10))
+			case 26:
+				b.CurveTo(1, 2.5, 3.25, 4, float64(r.IntN(50))/7, 6)
+			case 27:
+				b.CloseAndStroke()
+			case 28:
+				b.FillAndStroke()
+			case 29:
+				b.ClipEvenOdd()
+			case 30:
+				b.SetStrokeColor(color.DeviceRGB{0.1, float64(r.IntN(11)) / 10, 1})
+			case 31:
+				b.Circle(10, 20.5, float64(1+r.IntN(30))/3)
+			case 32:
+				b.FillAndStrokeEvenOdd()
+			case 33:
+				b.TextSecondLine(float64(r.IntN(20)), -14.4)
 			}
 		}()
 	}
@@ -1348,7 +1378,37 @@ func phase1() {
 		h.operators([]content.Operator{{Name: "x", Args: []pdf.Object{o}}}, "nesting-depth")
 	}
 
+	// 2b. string and name operands with a byte that needs escaping at every position
+	specials := []byte{'(', ')', '\\', '\r', '\n', '#', '/', 0x00, 0xff, ' ', '%'}
+	for L := 1; L <= 18; L++ {
+		for pos := 0; pos < L; pos++ {
+			for _, sp := range specials {
+				b := bytes.Repeat([]byte{'a'}, L)
+				b[pos] = sp
+				h.operators([]content.Operator{{Name: "Tj", Args: []pdf.Object{pdf.String(b)}}, {Name: "gs", Args: []pdf.Object{pdf.Name(b), pdf.Array{pdf.String(b), pdf.Name(b)}}}}, "escape-position")
+			}
+		}
+	}
+	for b := 0; b < 256; b++ {
+		h.operators([]content.Operator{{Name: "TJ", Args: []pdf.Object{pdf.Array{pdf.String([]byte{byte(b)}), pdf.Name([]byte{byte(b)}), pdf.Integer(b)}}}}, "single-byte")
+	}
+	for k := -20; k <= 20; k++ {
+		x := math.Pow10(k)
+		h.operators([]content.Operator{{Name: "cm", Args: []pdf.Object{pdf.Real(x), pdf.Real(-x), pdf.Real(x * 1.2345678901234567), pdf.Real(math.Nextafter(x, 0)), pdf.Real(x * 9.999999999999999), pdf.Integer(int64(k))}}}, "power-of-ten")
+	}
+
 	// 3. inline images: every data string of the list, with and without /L, several filters
+	for n := 0; n <= 24; n++ {
+		data := make([]byte, n)
+		for i := range data {
+			data[i] = byte(37*i + 11*n)
+		}
+		h.operators([]content.Operator{{Name: content.OpInlineImage, Args: []pdf.Object{pdf.Dict{"W": pdf.Integer(1), "H": pdf.Integer(1), "L": pdf.Integer(n)}, pdf.String(data)}}, {Name: "Q"}}, "inline-image-length")
+		h.operators([]content.Operator{{Name: content.OpInlineImage, Args: []pdf.Object{pdf.Dict{"W": pdf.Integer(1), "H": pdf.Integer(1)}, pdf.String(bytes.Repeat([]byte{'E', 'I'}, n))}}, {Name: "Q"}}, "inline-image-length")
+	}
+	for b := 0; b < 256; b++ {
+		h.operators([]content.Operator{{Name: content.OpInlineImage, Args: []pdf.Object{pdf.Dict{"W": pdf.Integer(1), "H": pdf.Integer(1)}, pdf.String([]byte{'x', byte(b), 'E', 'I', byte(b), 'y'})}}}, "inline-image-byte")
+	}
 	h.pfx = "i"
 	for _, data := range imgData {
 		for mode := 0; mode < 6; mode++ {
